@@ -154,8 +154,12 @@ theorem un_agree_aux (cB cG : Cfg) (hws : w.SupU false)
         cases x <;> simp [wellTyped] at hwt
         simp [un, unAny]
       | lit vs =>
-        have hl : x.isLeafB = true := memPy_leaf (by simpa [Ty.supU] using hs) (by simpa [wellTyped] using hwt)
-        exact hLeaf hl (un_lit w cB vs x) (un_lit w cG vs x)
+        rw [wellTyped] at hwt
+        simp only [Bool.and_eq_true] at hwt
+        have hvs : vs.all Obj.isLitVal = true := by simpa [Ty.supU] using hs
+        rw [un_lit_unAny w cB hvs hwt.1, un_lit_unAny w cG hvs hwt.1,
+          unAny_scalar w cB cG (litVal_scalar hvs hwt.1)]
+        exact ⟨rfl, rfl⟩
       | coll k t' =>
         cases x with
         | coll ck xs =>
